@@ -3,6 +3,7 @@
 
 mod c04;
 mod c05;
+mod comps;
 mod c06;
 mod c07;
 mod c08;
@@ -36,6 +37,21 @@ fn main() {
         "envelope" => c10::run(rest),
         "amounts" => c06::run(rest),
         "fields" => c05::run(rest),
+        "fieldjson" => {
+            // the JSON of every typical (unlabelled) content of a FieldFormats case file: a development aid
+            use std::io::BufRead;
+            let f = std::io::BufReader::new(std::fs::File::open(util::arg(rest, "--cases").expect("--cases")).expect("cases"));
+            for line in f.lines().map_while(|l| l.ok()) {
+                let c: serde_json::Value = match serde_json::from_str(&line) { Ok(v) => v, Err(_) => continue };
+                if c["l"] != "" { continue; }
+                let tag = c["tag"].as_str().unwrap_or("");
+                let content: String = c["s"].as_array().map(|a| a.iter().filter_map(|x| x.as_str()).collect::<Vec<_>>().concat()).unwrap_or_default();
+                if let Some(Ok(o)) = registry::parse_by_tag(tag, &content) {
+                    println!("{}\t{}\t{}", tag, content.replace('\n', "\\n"), o.json);
+                }
+            }
+            0
+        }
         "rules" => c04::run(rest),
         "variants" => c14::run(rest),
         "json" => c08::run(rest),
